@@ -95,8 +95,15 @@ const IV: Label = Label::Int(iana::HeaderParameter::Iv as i64);
 const PARTIAL_IV: Label = Label::Int(iana::HeaderParameter::PartialIv as i64);
 const COUNTER_SIG: Label = Label::Int(iana::HeaderParameter::CounterSignature as i64);
 
-impl AsCborValue for Header {
-    fn from_cbor_value(value: Value) -> Result<Self> {
+/// Maximum depth to which COSE_Signature structures (counter signatures) may be nested inside header
+/// maps, directly or through protected headers, before decoding fails.  Every such level re-enters
+/// the CBOR parser with a fresh recursion budget, so without a bound the nesting depth (and with it
+/// stack use and the total size of the copies made) would be limited only by the input length.
+pub(crate) const MAX_SIGNATURE_NESTING: usize = 16;
+
+impl Header {
+    /// Conversion from a [`Value`], with `depth` further levels of nested signatures allowed.
+    pub(crate) fn from_cbor_value_depth(value: Value, depth: usize) -> Result<Self> {
         let m = value.try_as_map()?;
         let mut headers = Self::default();
         let mut seen = BTreeSet::new();
@@ -177,15 +184,23 @@ impl AsCborValue for Header {
                     // Determine which is which by looking at the first entry of the array:
                     // - If it's a bstr, sig_or_sigs is a single signature.
                     // - If it's an array, sig_or_sigs is an array of signatures
+                    if depth == 0 {
+                        return Err(CoseError::DecodeFailed(
+                            crate::cbor::de::Error::RecursionLimitExceeded,
+                        ));
+                    }
                     match &sig_or_sigs[0] {
-                        Value::Bytes(_) => headers
-                            .counter_signatures
-                            .push(CoseSignature::from_cbor_value(Value::Array(sig_or_sigs))?),
+                        Value::Bytes(_) => headers.counter_signatures.push(
+                            CoseSignature::from_cbor_value_depth(
+                                Value::Array(sig_or_sigs),
+                                depth - 1,
+                            )?,
+                        ),
                         Value::Array(_) => {
                             for sig in sig_or_sigs.into_iter() {
                                 headers
                                     .counter_signatures
-                                    .push(CoseSignature::from_cbor_value(sig)?);
+                                    .push(CoseSignature::from_cbor_value_depth(sig, depth - 1)?);
                             }
                         }
                         v => return cbor_type_error(v, "array or bstr value"),
@@ -204,6 +219,12 @@ impl AsCborValue for Header {
             }
         }
         Ok(headers)
+    }
+}
+
+impl AsCborValue for Header {
+    fn from_cbor_value(value: Value) -> Result<Self> {
+        Self::from_cbor_value_depth(value, MAX_SIGNATURE_NESTING)
     }
 
     fn to_cbor_value(mut self) -> Result<Value> {
@@ -357,12 +378,18 @@ impl ProtectedHeader {
     /// Constructor from a [`Value`] that holds a `bstr` encoded header.
     #[inline]
     pub fn from_cbor_bstr(val: Value) -> Result<Self> {
+        Self::from_cbor_bstr_depth(val, MAX_SIGNATURE_NESTING)
+    }
+
+    /// As [`ProtectedHeader::from_cbor_bstr`], with `depth` further levels of nested signatures
+    /// allowed inside the header.
+    pub(crate) fn from_cbor_bstr_depth(val: Value, depth: usize) -> Result<Self> {
         let data = val.try_as_bytes()?;
         let header = if data.is_empty() {
             // An empty bstr is used as a short cut for an empty header map.
             Header::default()
         } else {
-            Header::from_slice(&data)?
+            Header::from_cbor_value_depth(Value::from_slice(&data)?, depth)?
         };
         Ok(ProtectedHeader {
             original_data: Some(data),
